@@ -97,17 +97,22 @@ func newSource(data []byte, lag int, short bool) savior.Source {
 }
 
 type msg struct {
-	idx  int64
-	data []byte
+	idx   int64
+	data  []byte
+	empty bool // written with every field at its default: encodes to a zero-length message
 }
 
-func readOne(rc *wire.ReadContext) (*pwr.SyncOp, error) {
-	op := &pwr.SyncOp{}
-	err := rc.ReadMessage(op)
-	return op, err
+// readOne reads the next message into *into - one struct reused for a whole stream, as wharf's
+// own read loops do - and returns a copy.
+func readOne(rc *wire.ReadContext, into *pwr.SyncOp) (*pwr.SyncOp, error) {
+	err := rc.ReadMessage(into)
+	return &pwr.SyncOp{Type: into.Type, FileIndex: into.FileIndex, BlockIndex: into.BlockIndex, BlockSpan: into.BlockSpan, Data: into.Data}, err
 }
 
 func sameMsg(op *pwr.SyncOp, m msg) bool {
+	if m.empty {
+		return op.Type == 0 && op.FileIndex == 0 && op.BlockIndex == 0 && op.BlockSpan == 0 && len(op.Data) == 0
+	}
 	return op.Type == pwr.SyncOp_DATA && op.FileIndex == m.idx && len(op.Data) == len(m.data) && rt.BytesEqual(op.Data, m.data)
 }
 
@@ -120,7 +125,11 @@ func H_frames() {
 		if !rt.HasParam(name) || rt.Param(name) < 0 {
 			break
 		}
-		msgs = append(msgs, msg{idx: int64(i + 1), data: rt.Bytes("payload"+string(rune('0'+i)), rt.Param(name))})
+		m := msg{idx: int64(i + 1), data: rt.Bytes("payload"+string(rune('0'+i)), rt.Param(name))}
+		if rt.HasParam("empty") && rt.Param("empty")&(1<<i) != 0 {
+			m = msg{empty: true}
+		}
+		msgs = append(msgs, m)
 	}
 	save, lag, short := rt.Param("save"), rt.Param("lag"), rt.Param("short") == 1
 
@@ -128,6 +137,10 @@ func H_frames() {
 	wc := wire.NewWriteContext(&buf)
 	hlib.Must(wc.WriteMagic(pwr.PatchMagic), "magic")
 	for _, m := range msgs {
+		if m.empty {
+			hlib.Must(wc.WriteMessage(&pwr.SyncOp{}), "write all-default message")
+			continue
+		}
 		hlib.Must(wc.WriteMessage(&pwr.SyncOp{Type: pwr.SyncOp_DATA, FileIndex: m.idx, Data: m.data}), "write message")
 	}
 	stream := buf.Bytes()
@@ -137,11 +150,12 @@ func H_frames() {
 	hlib.Must(err, "resume")
 	rc := wire.NewReadContext(src)
 	rt.Assert(rc.ExpectMagic(pwr.PatchMagic) == nil, "magic read back")
+	var hold, hold2 pwr.SyncOp
 	for i, m := range msgs {
 		if save&(1<<i) != 0 {
 			rc.WantSave()
 		}
-		op, err := readOne(rc)
+		op, err := readOne(rc, &hold)
 		rt.Assert(err == nil, "message read back without error")
 		if err != nil {
 			return
@@ -155,18 +169,18 @@ func H_frames() {
 			rc2 := wire.NewReadContext(src2)
 			rt.Assert(rc2.Resume(c2) == nil, "resume from checkpoint succeeds")
 			for j := i + 1; j < len(msgs); j++ {
-				op2, err := readOne(rc2)
+				op2, err := readOne(rc2, &hold2)
 				rt.Assert(err == nil, "resumed reader reads the next unread message")
 				if err != nil {
 					return
 				}
 				rt.Assert(sameMsg(op2, msgs[j]), "resumed reader yields exactly the unread suffix")
 			}
-			_, err := readOne(rc2)
+			_, err := readOne(rc2, &hold2)
 			rt.Assert(hlib.Cause(err) == io.EOF, "resumed reader ends with EOF")
 		}
 	}
-	_, err = readOne(rc)
+	_, err = readOne(rc, &hold)
 	rt.Assert(hlib.Cause(err) == io.EOF, "end of stream after the last message")
 	rt.Reach("end")
 }
